@@ -254,6 +254,9 @@ class Peer:
             except UnicodeDecodeError as msg_err:
                 message = f'peer reset, message [{message}] error[{msg_err}]'
             self.proto.close(message)
+        # the session is gone: nothing more reaches the wire on it, release the API commands waiting for that
+        if self.neighbor.rib is not None and self.neighbor.rib.enabled:
+            self.neighbor.rib.outgoing.fire_flush_callbacks()
         self._delay.increase()
 
         self.proto = None
@@ -599,6 +602,10 @@ class Peer:
                 new_routes = None
                 include_withdraw = True
                 self.neighbor.rib.outgoing.fire_flush_callbacks()
+        elif not self.neighbor.rib.outgoing.pending():
+            # nothing queued and nothing being sent: an API command waiting for the RIB to reach the wire
+            # (sync mode) has nothing to wait for - without this it waited forever and no later command was read
+            self.neighbor.rib.outgoing.fire_flush_callbacks()
 
         return (new_routes, include_withdraw)
 
